@@ -21,7 +21,9 @@ trust-region Newton; convergence.
 -/
 import SharkVerif.Lemmas.GradOpt
 import SharkVerif.Gen.OptFields
+import SharkVerif.Gen.LbfgsBox
 import SharkVerif.Lemmas.BFGSList
+import SharkVerif.Lemmas.BoxDir
 import Mathlib.Tactic.Ring
 import Mathlib.Tactic.FieldSimp
 import Mathlib.Tactic.NormNum
@@ -459,6 +461,7 @@ example (o : Objective Rat) (ho : GradDim o) (x0 : Vec Rat) (k : Nat) :
   linesearch_methods_monotone_bfgs backtracking backtracking_LSNoIncrease backtracking_LSDim o ho x0 [] k
 end bfgs
 
+
 /-! ## the archived member lists of the real code
 
 `Gen/OptFields.lean` is regenerated from the C++ `read`/`write` bodies on every run
@@ -510,3 +513,455 @@ theorem trn_step_reads_archived :
 end fields
 
 end SharkVerif.C10
+
+/-! ## the box-constrained L-BFGS direction (`LBFGS::getBoxConstrainedDirection`, model `Box.direction`)
+
+What the Cauchy-point / dog-leg computation guarantees, for every dimension, every box, every point inside it,
+every gradient and every pair of implicit matrices that are positive on the projected gradient:
+`box_direction_feasible_partial` (the target `x + d` is inside the box, unless the Cauchy point touches a bound:
+`box_direction_touching_witness`, finding F-C10-12), `box_direction_descent` (`gᵀd < 0` whenever the projected
+gradient is non-zero) and `box_direction_nonzero` (`d ≠ 0` in that case). -/
+namespace SharkVerif.C10.Box
+open SharkVerif.Opt SharkVerif.Opt.LSOpt.Box SharkVerif.Opt.LSOpt
+
+/-! ### hypotheses -/
+
+/-- what the split into movable and blocked variables guarantees for a point with `l ≤ x ≤ u`:
+a blocked variable has `p0 = step = 0`; a movable one that wants to decrease is strictly above its lower
+bound (by at least `eps`), one that wants to increase is strictly below its upper bound -/
+structure CoordOK (c : BoxCoord Rat) : Prop where
+  lx : c.l ≤ c.x
+  xu : c.x ≤ c.u
+  blocked0 : c.act = false → c.p0 = 0 ∧ c.step = 0
+  roomL : c.act = true → c.p0 < 0 → c.l < c.x
+  roomU : c.act = true → 0 < c.p0 → c.x < c.u
+
+/-- no movable coordinate has its Cauchy point exactly on the bound that `step - cauchy` points to -/
+def NoTouch (pBp : Rat) (c : BoxCoord Rat) : Prop :=
+  c.act = true → (0 < c.step - cauchy pBp c → c.x + cauchy pBp c < c.u) ∧
+                 (c.step - cauchy pBp c < 0 → c.l < c.x + cauchy pBp c)
+
+theorem eps_pos : (0 : Rat) < (eps : Rat) := by
+  show (0 : Rat) < 1 / 10000000000000
+  norm_num
+
+theorem cauchy_sign (pBp : Rat) (hB : 0 < pBp) (c : BoxCoord Rat) :
+    (0 < cauchy pBp c ↔ 0 < c.p0) ∧ (cauchy pBp c < 0 ↔ c.p0 < 0) ∧ (c.p0 = 0 → cauchy pBp c = 0) := by
+  unfold cauchy
+  refine ⟨?_, ?_, ?_⟩
+  · constructor
+    · intro h; by_contra hn; have : c.p0 / pBp ≤ 0 := div_nonpos_of_nonpos_of_nonneg (not_lt.mp hn) (le_of_lt hB); linarith
+    · intro h; exact div_pos h hB
+  · constructor
+    · intro h; by_contra hn; have : 0 ≤ c.p0 / pBp := div_nonneg (not_lt.mp hn) (le_of_lt hB); linarith
+    · intro h; exact div_neg_of_neg_of_pos h hB
+  · intro h; rw [h]; simp
+
+/-- the Cauchy stage: `x + clip·cauchy` stays in the box -/
+theorem cauchy_stage_feasible (pBp : Rat) (hB : 0 < pBp) (cs : List (BoxCoord Rat)) (hok : ∀ c ∈ cs, CoordOK c)
+    (c : BoxCoord Rat) (hc : c ∈ cs) :
+    c.l ≤ c.x + clip (·.x) (cauchy pBp) cs 1 * cauchy pBp c ∧
+    c.x + clip (·.x) (cauchy pBp) cs 1 * cauchy pBp c ≤ c.u := by
+  have ok := hok c hc
+  have hs := cauchy_sign pBp hB c
+  exact clip_move_feasible (·.x) (cauchy pBp) cs c hc ok.lx ok.xu
+    (fun h => hs.2.2 (ok.blocked0 h).1)
+    (fun h hd => ok.roomU h (hs.1.mp hd))
+    (fun h hd => ok.roomL h (hs.2.1.mp hd))
+
+/-- **box_direction_feasible_partial.**  For a point inside the box, `x + direction` is inside the box,
+provided no movable coordinate has its Cauchy point exactly on the bound the dog-leg moves towards
+(`NoTouch`; without it the statement is false: `box_direction_touching_witness`). -/
+theorem box_direction_feasible_partial (pBp : Rat) (hB : 0 < pBp) (cs : List (BoxCoord Rat))
+    (hok : ∀ c ∈ cs, CoordOK c) (hnt : ∀ c ∈ cs, NoTouch pBp c) (c : BoxCoord Rat) (hc : c ∈ cs) :
+    c.l ≤ c.x + dirCoord pBp cs c ∧ c.x + dirCoord pBp cs c ≤ c.u := by
+  have ok := hok c hc
+  unfold dirCoord
+  by_cases h1 : Scalar.beq (Vec.normSqr (cs.map (·.p0))) (Scalar.zero : Rat) = true
+  · simp only [if_pos h1]
+    have hz := beq_zero_true _ h1
+    unfold Vec.normSqr at hz
+    rw [dot_map_map] at hz
+    have := sumsq_zero cs (·.p0) hz c hc
+    rw [this]; constructor <;> linarith [ok.lx, ok.xu]
+  · simp only [if_neg h1]
+    by_cases h2 : (!(cs.any stepInfeasibleAt)) = true
+    · simp only [if_pos h2]
+      have hnone : stepInfeasibleAt c = false := by
+        by_contra hne
+        have : cs.any stepInfeasibleAt = true := List.any_eq_true.mpr ⟨c, hc, by simpa using hne⟩
+        simp [this] at h2
+      cases hact : c.act with
+      | false => rw [(ok.blocked0 hact).2]; constructor <;> linarith [ok.lx, ok.xu]
+      | true =>
+        unfold stepInfeasibleAt at hnone
+        simp only [hact, Bool.true_and, Bool.or_eq_false_iff, decide_eq_false_iff_not, not_lt] at hnone
+        have he := eps_pos
+        constructor <;> linarith [hnone.1, hnone.2]
+    · simp only [if_neg h2]
+      have hle : clip (·.x) (cauchy pBp) cs (1 : Rat) ≤ 1 := clip_le _ _ cs 1
+      by_cases h3 : clip (·.x) (cauchy pBp) cs Scalar.one < (Scalar.one : Rat)
+      · simp only [if_pos h3]
+        exact cauchy_stage_feasible pBp hB cs hok c hc
+      · simp only [if_neg h3]
+        have h1' : clip (·.x) (cauchy pBp) cs (1 : Rat) = 1 := le_antisymm hle (not_lt.mp h3)
+        have hcp := cauchy_stage_feasible pBp hB cs hok c hc
+        rw [h1', one_mul] at hcp
+        have hs := cauchy_sign pBp hB c
+        have hm := clip_move_feasible (fun c => c.x + cauchy pBp c) (fun c => c.step - cauchy pBp c) cs c hc hcp.1 hcp.2
+          (fun h => by
+            have hb := ok.blocked0 h
+            show c.step - cauchy pBp c = 0
+            rw [hb.2, hs.2.2 hb.1]; ring)
+          (fun h hd => (hnt c hc h).1 hd)
+          (fun h hd => (hnt c hc h).2 hd)
+        constructor
+        · have := hm.1; show c.l ≤ c.x + (cauchy pBp c + clip _ _ cs 1 * (c.step - cauchy pBp c)); linarith
+        · have := hm.2; show c.x + (cauchy pBp c + clip _ _ cs 1 * (c.step - cauchy pBp c)) ≤ c.u; linarith
+
+/-- **box_direction_descent.**  Whenever the projected gradient is non-zero (`Σ p0ᵢ² > 0`), and the two
+implicit matrices are positive on `p0` (`p0ᵀBp0 > 0`, `p0ᵀB⁻¹p0 > 0`), the returned direction `d` satisfies
+`Σ p0ᵢ·dᵢ > 0`, i.e. `gᵀd < 0` (`p0 = -g` on the movable coordinates and `d = 0` on the blocked ones):
+it is a descent direction.  No feasibility hypothesis is needed: the clipped step lengths are positive
+because the loop only ever takes minima with positive numbers. -/
+theorem box_direction_descent (pBp : Rat) (hB : 0 < pBp) (cs : List (BoxCoord Rat))
+    (hp : 0 < (cs.map fun c => c.p0 * c.p0).sum) (hs : 0 < (cs.map fun c => c.p0 * c.step).sum) :
+    0 < (cs.map fun c => c.p0 * dirCoord pBp cs c).sum := by
+  unfold dirCoord
+  by_cases h1 : Scalar.beq (Vec.normSqr (cs.map (·.p0))) (Scalar.zero : Rat) = true
+  · simp only [if_pos h1]; exact hp
+  · simp only [if_neg h1]
+    by_cases h2 : (!(cs.any stepInfeasibleAt)) = true
+    · simp only [if_pos h2]; exact hs
+    · simp only [if_neg h2]
+      by_cases h3 : clip (·.x) (cauchy pBp) cs Scalar.one < (Scalar.one : Rat)
+      · simp only [if_pos h3]
+        have hpos : 0 < clip (·.x) (cauchy pBp) cs (1 : Rat) := clip_pos _ _ cs 1 (by norm_num)
+        set a := clip (·.x) (cauchy pBp) cs (Scalar.one : Rat) with ha
+        have hfun : (fun c : BoxCoord Rat => c.p0 * (a * cauchy pBp c)) = fun c => (a / pBp) * (c.p0 * c.p0) := by
+          funext c; unfold cauchy; field_simp
+        rw [hfun, List.sum_map_mul_left]
+        have : 0 < a / pBp := div_pos hpos hB
+        positivity
+      · simp only [if_neg h3]
+        set a2 := clip (fun c => c.x + cauchy pBp c) (fun c => c.step - cauchy pBp c) cs (Scalar.one : Rat) with ha2
+        have hpos : 0 < a2 := clip_pos _ _ cs 1 (by norm_num)
+        have hle : a2 ≤ 1 := clip_le _ _ cs 1
+        have hfun : (fun c : BoxCoord Rat => c.p0 * (cauchy pBp c + a2 * (c.step - cauchy pBp c)))
+            = fun c => ((1 - a2) / pBp) * (c.p0 * c.p0) + a2 * (c.p0 * c.step) := by
+          funext c; unfold cauchy; field_simp; ring
+        rw [hfun, List.sum_map_add, List.sum_map_mul_left, List.sum_map_mul_left]
+        have h4 : 0 ≤ (1 - a2) / pBp := div_nonneg (by linarith) (le_of_lt hB)
+        have h5 : 0 ≤ (1 - a2) / pBp * (cs.map fun c => c.p0 * c.p0).sum := mul_nonneg h4 (le_of_lt hp)
+        have h6 : 0 < a2 * (cs.map fun c => c.p0 * c.step).sum := mul_pos hpos hs
+        linarith
+
+/-- **box_direction_nonzero.**  Under the same hypotheses the returned direction is not the zero vector
+(the statement a clipping test `u_alpha >= 0` instead of `> 0` falsifies: a variable sitting exactly on its
+upper bound and pushed inward then gives `alpha = 0` and the optimizer freezes at a non-optimal point). -/
+theorem box_direction_nonzero (pBp : Rat) (hB : 0 < pBp) (cs : List (BoxCoord Rat))
+    (hp : 0 < (cs.map fun c => c.p0 * c.p0).sum) (hs : 0 < (cs.map fun c => c.p0 * c.step).sum) :
+    ∃ d ∈ direction pBp cs, d ≠ 0 := by
+  by_contra hall
+  have hall' : ∀ d ∈ direction pBp cs, d = 0 := by
+    intro d hd; by_contra hne; exact hall ⟨d, hd, hne⟩
+  have hd := box_direction_descent pBp hB cs hp hs
+  have hz : (cs.map fun c => c.p0 * dirCoord pBp cs c).sum = 0 := by
+    apply List.sum_eq_zero
+    intro x hx
+    obtain ⟨c, hc, rfl⟩ := List.mem_map.mp hx
+    have : dirCoord pBp cs c = 0 := hall' _ (by rw [direction_eq_map]; exact List.mem_map.mpr ⟨c, hc, rfl⟩)
+    rw [this]; ring
+  linarith
+
+/-! ### the records built by `coords` satisfy `CoordOK` for a point inside the box -/
+
+theorem mem_zipWith_exists {β γ δ : Type} (f : β → γ → δ) : ∀ (A : List β) (B : List γ) (c : δ),
+    c ∈ List.zipWith f A B → ∃ a ∈ A, ∃ b ∈ B, c = f a b := by
+  intro A
+  induction A with
+  | nil => intro B c h; simp at h
+  | cons a A ih =>
+    intro B c h
+    cases B with
+    | nil => simp at h
+    | cons b B =>
+      simp only [List.zipWith_cons_cons, List.mem_cons] at h
+      rcases h with rfl | h
+      · exact ⟨a, List.mem_cons_self, b, List.mem_cons_self, rfl⟩
+      · obtain ⟨a', ha', b', hb', rfl⟩ := ih B c h
+        exact ⟨a', List.mem_cons_of_mem _ ha', b', List.mem_cons_of_mem _ hb', rfl⟩
+
+theorem blocked_false_room (l u x p : Rat) (h : blocked l u x p = false) :
+    (p < 0 → l < x) ∧ (0 < p → x < u) := by
+  unfold blocked at h
+  have he := eps_pos
+  simp only [Bool.or_eq_false_iff, Bool.and_eq_false_iff, decide_eq_false_iff_not, not_lt] at h
+  constructor
+  · intro hp
+    rcases h.1 with h1 | h1
+    · linarith
+    · exact absurd hp (not_lt.mpr h1)
+  · intro hp
+    rcases h.2 with h1 | h1
+    · linarith
+    · exact absurd hp (not_lt.mpr h1)
+
+/-- the variant-parametrised model instantiated with the unrepaired variant is `direction` (the function the
+theorems of this section are about); the driver runs `directionV` with the variant regenerated from the tree -/
+theorem directionV_head (pp pBp : Rat) (cs : List (BoxCoord Rat)) :
+    directionV ⟨false, false⟩ pp pBp cs = direction pBp cs := rfl
+
+/-- **coords_ok.**  For a point with `l ≤ x ≤ u` (coordinate-wise), every record produced by the active-set
+split of `getBoxConstrainedDirection` satisfies `CoordOK` — whatever `multBInv` returns. -/
+theorem coords_ok (binv : Vec Rat → Vec Rat) (l u x g : Vec Rat)
+    (hbox : ∀ t ∈ List.zip l (List.zip u x), t.1 ≤ t.2.2 ∧ t.2.2 ≤ t.2.1) :
+    ∀ c ∈ coords binv l u x g, CoordOK c := by
+  intro c hc
+  unfold coords at hc
+  obtain ⟨a, ha, b, _, rfl⟩ := mem_zipWith_exists _ _ _ c hc
+  have hb := hbox a ha
+  cases hblk : blocked a.1 a.2.1 a.2.2 (-b.1) with
+  | true =>
+    refine ⟨hb.1, hb.2, ?_, ?_, ?_⟩
+    · intro _; simp [zero_eq']
+    · intro h; simp at h
+    · intro h; simp at h
+  | false =>
+    have hr := blocked_false_room _ _ _ _ hblk
+    refine ⟨hb.1, hb.2, ?_, ?_, ?_⟩
+    · intro h; simp at h
+    · intro _ hp; exact hr.1 (by simpa using hp)
+    · intro _ hp; exact hr.2 (by simpa using hp)
+
+/-- **box_direction_touching_witness.**  The hypothesis `NoTouch` of `box_direction_feasible_partial` cannot be
+dropped: `B = I`, `x = (0,0)`, `g = (-1,-1)`, box `[-1,1/2] × [-1,10]`.  The quasi-Newton step `(1,1)` is infeasible,
+the Cauchy point `(1/2,1/2)` lies exactly on the upper bound of the first variable, the dog-leg stage skips that
+bound (`u_alpha = 0` is not `> 0`) and returns `(1,1)`: `x + d` leaves the box (finding F-C10-12). -/
+theorem box_direction_touching_witness :
+    let cs : List (BoxCoord Rat) := [⟨-1, 1/2, 0, true, 1, 1⟩, ⟨-1, 10, 0, true, 1, 1⟩]
+    (∀ c ∈ cs, CoordOK c) ∧ direction (2 : Rat) cs = [1, 1] ∧ ¬ ((0 : Rat) + 1 ≤ 1/2) := by
+  intro cs
+  refine ⟨?_, ?_, by norm_num⟩
+  · intro c hc
+    simp only [cs, List.mem_cons, List.not_mem_nil, or_false] at hc
+    rcases hc with rfl | rfl <;> exact ⟨by norm_num, by norm_num, by simp, by norm_num, by norm_num⟩
+  · norm_num [cs, direction, Vec.normSqr, Vec.dot, Scalar.beq, Scalar.zero, Scalar.one, Scalar.ofRat, stepInfeasibleAt,
+      eps, clip, clipStep, cauchy, Scalar.min]
+
+/-- non-vacuity of the three theorems: first step of a run (empty history, `B = bdiag·I` with `bdiag = 2`),
+`x = (0, 1)`, box `[0,1]²`, `g = (-4, -1)`: the second variable is blocked (on its upper bound, pushed outward), the
+quasi-Newton step `(2, 0)` is infeasible, the Cauchy step `(4,0)/32` is feasible, the dog-leg returns `(1, 0)` -/
+example :
+    let cs := coords (fun p => p.map (· / 2)) [0, 0] [1, 1] [0, 1] [-4, -1]
+    (∀ c ∈ cs, CoordOK c) ∧ (∀ c ∈ cs, NoTouch (32 : Rat) c) ∧ 0 < (cs.map fun c => c.p0 * c.p0).sum ∧
+      0 < (cs.map fun c => c.p0 * c.step).sum ∧ direction (32 : Rat) cs = [1, 0] := by
+  intro cs
+  have hcs : cs = [⟨0, 1, 0, true, 4, 2⟩, ⟨0, 1, 1, false, 0, 0⟩] := by
+    norm_num [cs, coords, p0, blocked, eps, Scalar.zero, Scalar.ofRat]
+  refine ⟨coords_ok _ _ _ _ _ (by norm_num), ?_, ?_, ?_, ?_⟩
+  · intro c hc
+    rw [hcs] at hc
+    simp only [List.mem_cons, List.not_mem_nil, or_false] at hc
+    rcases hc with rfl | rfl <;> norm_num [NoTouch, cauchy]
+  · rw [hcs]; norm_num
+  · rw [hcs]; norm_num
+  · rw [hcs]
+    norm_num [direction, Vec.normSqr, Vec.dot, Scalar.beq, Scalar.zero, Scalar.one, Scalar.ofRat, stepInfeasibleAt,
+      eps, clip, clipStep, cauchy, Scalar.min]
+
+/-! ### the repaired variants of the direction -/
+
+/-- component of `directionV v pp pBp cs` belonging to the coordinate record `c` -/
+def dirCoordV (v : Variant) (pp pBp : Rat) (cs : List (BoxCoord Rat)) (c : BoxCoord Rat) : Rat :=
+  if Scalar.beq (Vec.normSqr (cs.map (·.p0))) Scalar.zero then c.p0
+  else if !(cs.any stepInfeasibleAt) then c.step
+  else if clipV v (·.x) (cauchyV v pp pBp) cs Scalar.one < Scalar.one then
+    clipV v (·.x) (cauchyV v pp pBp) cs Scalar.one * cauchyV v pp pBp c
+  else cauchyV v pp pBp c +
+    clipV v (fun c => c.x + cauchyV v pp pBp c) (fun c => c.step - cauchyV v pp pBp c) cs Scalar.one
+      * (c.step - cauchyV v pp pBp c)
+
+theorem directionV_eq_map (v : Variant) (pp pBp : Rat) (cs : List (BoxCoord Rat)) :
+    directionV v pp pBp cs = cs.map (dirCoordV v pp pBp cs) := by
+  unfold directionV dirCoordV
+  by_cases h1 : Scalar.beq (Vec.normSqr (cs.map (·.p0))) (Scalar.zero : Rat) = true
+  · simp only [if_pos h1]
+  · simp only [if_neg h1]
+    by_cases h2 : (!(cs.any stepInfeasibleAt)) = true
+    · simp only [if_pos h2]
+    · simp only [if_neg h2]
+      by_cases h3 : clipV v (·.x) (cauchyV v pp pBp) cs Scalar.one < (Scalar.one : Rat)
+      · simp only [if_pos h3]
+      · simp only [if_neg h3]
+
+theorem clipV_sign (v : Variant) (hv : v.clipBySign = true) (pt d : BoxCoord Rat → Rat) (cs : List (BoxCoord Rat)) (a0 : Rat) :
+    clipV v pt d cs a0 = clipS pt d cs a0 := by
+  unfold clipV clipS; rw [hv]; rfl
+
+/-- the factor `k` with `cauchy_i = k · p0_i` -/
+def cauchyFactor (v : Variant) (pp pBp : Rat) : Rat := bif v.cauchyScaled then pp / pBp else 1 / pBp
+
+theorem cauchyV_eq (v : Variant) (pp pBp : Rat) (c : BoxCoord Rat) :
+    cauchyV v pp pBp c = cauchyFactor v pp pBp * c.p0 := by
+  unfold cauchyV cauchyFactor cauchy
+  cases v.cauchyScaled with
+  | true => show c.p0 * (pp / pBp) = pp / pBp * c.p0; ring
+  | false => show c.p0 / pBp = 1 / pBp * c.p0; ring
+
+theorem cauchyFactor_pos (v : Variant) (pp pBp : Rat) (hpp : 0 < pp) (hB : 0 < pBp) : 0 < cauchyFactor v pp pBp := by
+  unfold cauchyFactor
+  cases v.cauchyScaled with
+  | true => exact div_pos hpp hB
+  | false => exact div_pos one_pos hB
+
+/-- **box_direction_feasible_repaired.**  With the clipping loops that choose the bound by the sign of the direction
+(findings F-C10-12/13 repaired; either Cauchy variant), `x + direction` is inside the box for EVERY point inside the
+box: no hypothesis about the Cauchy point touching a bound, none about the implicit matrices. -/
+theorem box_direction_feasible_repaired (v : Variant) (hv : v.clipBySign = true) (pp pBp : Rat)
+    (cs : List (BoxCoord Rat))
+    (hok : ∀ c ∈ cs, c.l ≤ c.x ∧ c.x ≤ c.u ∧ (c.act = false → c.p0 = 0 ∧ c.step = 0))
+    (c : BoxCoord Rat) (hc : c ∈ cs) :
+    c.l ≤ c.x + dirCoordV v pp pBp cs c ∧ c.x + dirCoordV v pp pBp cs c ≤ c.u := by
+  obtain ⟨hlx, hxu, hblk⟩ := hok c hc
+  have hstep : stepInfeasibleAt c = false → c.act = true → c.l ≤ c.x + c.step ∧ c.x + c.step ≤ c.u := by
+    intro hnone hact
+    unfold stepInfeasibleAt at hnone
+    simp only [hact, Bool.true_and, Bool.or_eq_false_iff, decide_eq_false_iff_not, not_lt] at hnone
+    have he := eps_pos
+    constructor <;> linarith [hnone.1, hnone.2]
+  have hcau0 : ∀ c' : BoxCoord Rat, c'.p0 = 0 → cauchyV v pp pBp c' = 0 := by
+    intro c' h; rw [cauchyV_eq, h]; ring
+  have stage1 : ∀ c' ∈ cs, c'.l ≤ c'.x + clipS (·.x) (cauchyV v pp pBp) cs 1 * cauchyV v pp pBp c' ∧
+      c'.x + clipS (·.x) (cauchyV v pp pBp) cs 1 * cauchyV v pp pBp c' ≤ c'.u := by
+    intro c' hc'
+    obtain ⟨h1, h2, h3⟩ := hok c' hc'
+    exact clipS_move_feasible (·.x) (cauchyV v pp pBp) cs c' hc' h1 h2 (fun h => hcau0 c' (h3 h).1)
+  unfold dirCoordV
+  by_cases h1 : Scalar.beq (Vec.normSqr (cs.map (·.p0))) (Scalar.zero : Rat) = true
+  · simp only [if_pos h1]
+    have hz := beq_zero_true _ h1
+    unfold Vec.normSqr at hz
+    rw [dot_map_map] at hz
+    have := sumsq_zero cs (·.p0) hz c hc
+    rw [this]; constructor <;> linarith
+  · simp only [if_neg h1]
+    by_cases h2 : (!(cs.any stepInfeasibleAt)) = true
+    · simp only [if_pos h2]
+      have hnone : stepInfeasibleAt c = false := by
+        by_contra hne
+        have : cs.any stepInfeasibleAt = true := List.any_eq_true.mpr ⟨c, hc, by simpa using hne⟩
+        simp [this] at h2
+      cases hact : c.act with
+      | false => rw [(hblk hact).2]; constructor <;> linarith
+      | true => exact hstep hnone hact
+    · simp only [if_neg h2]
+      rw [clipV_sign v hv, clipV_sign v hv]
+      have hle : clipS (·.x) (cauchyV v pp pBp) cs (1 : Rat) ≤ 1 := clipS_le _ _ cs 1
+      by_cases h3 : clipS (·.x) (cauchyV v pp pBp) cs Scalar.one < (Scalar.one : Rat)
+      · simp only [if_pos h3]
+        exact stage1 c hc
+      · simp only [if_neg h3]
+        have h1' : clipS (·.x) (cauchyV v pp pBp) cs (1 : Rat) = 1 := le_antisymm hle (not_lt.mp h3)
+        have hcp := stage1 c hc
+        rw [h1', one_mul] at hcp
+        have hm := clipS_move_feasible (fun c => c.x + cauchyV v pp pBp c) (fun c => c.step - cauchyV v pp pBp c) cs c hc
+          hcp.1 hcp.2
+          (fun h => by
+            have hb := hblk h
+            show c.step - cauchyV v pp pBp c = 0
+            rw [hb.2, hcau0 c hb.1]; ring)
+        constructor
+        · have := hm.1
+          show c.l ≤ c.x + (cauchyV v pp pBp c + clipS _ _ cs 1 * (c.step - cauchyV v pp pBp c)); linarith
+        · have := hm.2
+          show c.x + (cauchyV v pp pBp c + clipS _ _ cs 1 * (c.step - cauchyV v pp pBp c)) ≤ c.u; linarith
+
+/-- **box_direction_descent_repaired.**  Repaired clipping loops, either Cauchy variant: for a point inside the box
+(`CoordOK`), positive `p0ᵀBp0`, `p0ᵀp0`, `p0ᵀB⁻¹p0`, the direction satisfies `Σ p0ᵢ·dᵢ > 0`, i.e. `gᵀd < 0`.  Here the
+positivity of the first step length needs the active-set rule: a movable variable has room (≥ eps) in the direction it
+wants to move. -/
+theorem box_direction_descent_repaired (v : Variant) (hv : v.clipBySign = true) (pp pBp : Rat) (hpp : 0 < pp) (hB : 0 < pBp)
+    (cs : List (BoxCoord Rat)) (hok : ∀ c ∈ cs, CoordOK c)
+    (hp : 0 < (cs.map fun c => c.p0 * c.p0).sum) (hs : 0 < (cs.map fun c => c.p0 * c.step).sum) :
+    0 < (cs.map fun c => c.p0 * dirCoordV v pp pBp cs c).sum := by
+  have hk := cauchyFactor_pos v pp pBp hpp hB
+  set k := cauchyFactor v pp pBp with hkdef
+  unfold dirCoordV
+  by_cases h1 : Scalar.beq (Vec.normSqr (cs.map (·.p0))) (Scalar.zero : Rat) = true
+  · simp only [if_pos h1]; exact hp
+  · simp only [if_neg h1]
+    by_cases h2 : (!(cs.any stepInfeasibleAt)) = true
+    · simp only [if_pos h2]; exact hs
+    · simp only [if_neg h2]
+      rw [clipV_sign v hv, clipV_sign v hv]
+      have hpos : 0 < clipS (·.x) (cauchyV v pp pBp) cs (1 : Rat) := by
+        apply clipS_pos _ _ cs 1 (by norm_num)
+        intro c hc hact hd
+        have ok := hok c hc
+        unfold signQuot
+        rw [cauchyV_eq] at hd ⊢
+        by_cases hsgn : (Scalar.zero : Rat) < k * c.p0
+        · rw [if_pos hsgn]
+          have hp0 : 0 < c.p0 := by
+            by_contra hn
+            have : k * c.p0 ≤ 0 := mul_nonpos_of_nonneg_of_nonpos (le_of_lt hk) (not_lt.mp hn)
+            exact absurd hsgn (not_lt.mpr this)
+          exact div_pos (by linarith [ok.roomU hact hp0]) hsgn
+        · rw [if_neg hsgn]
+          have hneg : k * c.p0 < 0 := lt_of_le_of_ne (not_lt.mp hsgn) hd
+          have hp0 : c.p0 < 0 := by
+            by_contra hn
+            have : 0 ≤ k * c.p0 := mul_nonneg (le_of_lt hk) (not_lt.mp hn)
+            linarith
+          exact div_pos_of_neg_of_neg (by linarith [ok.roomL hact hp0]) hneg
+      by_cases h3 : clipS (·.x) (cauchyV v pp pBp) cs Scalar.one < (Scalar.one : Rat)
+      · simp only [if_pos h3]
+        set a := clipS (·.x) (cauchyV v pp pBp) cs (Scalar.one : Rat) with ha
+        have hfun : (fun c : BoxCoord Rat => c.p0 * (a * cauchyV v pp pBp c)) = fun c => (a * k) * (c.p0 * c.p0) := by
+          funext c; rw [cauchyV_eq]; ring
+        rw [hfun, List.sum_map_mul_left]
+        have : 0 < a * k := mul_pos hpos hk
+        positivity
+      · simp only [if_neg h3]
+        set a2 := clipS (fun c => c.x + cauchyV v pp pBp c) (fun c => c.step - cauchyV v pp pBp c) cs (Scalar.one : Rat) with ha2
+        have hnn : 0 ≤ a2 := clipS_nonneg _ _ cs 1 (by norm_num)
+        have hle : a2 ≤ 1 := clipS_le _ _ cs 1
+        have hfun : (fun c : BoxCoord Rat => c.p0 * (cauchyV v pp pBp c + a2 * (c.step - cauchyV v pp pBp c)))
+            = fun c => ((1 - a2) * k) * (c.p0 * c.p0) + a2 * (c.p0 * c.step) := by
+          funext c; rw [cauchyV_eq]; ring
+        rw [hfun, List.sum_map_add, List.sum_map_mul_left, List.sum_map_mul_left]
+        rcases lt_or_eq_of_le hle with hlt | heq
+        · have h4 : 0 < (1 - a2) * k := mul_pos (by linarith) hk
+          have h5 : 0 < (1 - a2) * k * (cs.map fun c => c.p0 * c.p0).sum := mul_pos h4 hp
+          have h6 : 0 ≤ a2 * (cs.map fun c => c.p0 * c.step).sum := mul_nonneg hnn (le_of_lt hs)
+          linarith
+        · rw [heq]; simp only [sub_self, zero_mul, one_mul, zero_add]; exact hs
+
+/-- **box_direction_nonzero_repaired.** -/
+theorem box_direction_nonzero_repaired (v : Variant) (hv : v.clipBySign = true) (pp pBp : Rat) (hpp : 0 < pp) (hB : 0 < pBp)
+    (cs : List (BoxCoord Rat)) (hok : ∀ c ∈ cs, CoordOK c)
+    (hp : 0 < (cs.map fun c => c.p0 * c.p0).sum) (hs : 0 < (cs.map fun c => c.p0 * c.step).sum) :
+    ∃ d ∈ directionV v pp pBp cs, d ≠ 0 := by
+  by_contra hall
+  have hall' : ∀ d ∈ directionV v pp pBp cs, d = 0 := by
+    intro d hd; by_contra hne; exact hall ⟨d, hd, hne⟩
+  have hd := box_direction_descent_repaired v hv pp pBp hpp hB cs hok hp hs
+  have hz : (cs.map fun c => c.p0 * dirCoordV v pp pBp cs c).sum = 0 := by
+    apply List.sum_eq_zero
+    intro x hx
+    obtain ⟨c, hc, rfl⟩ := List.mem_map.mp hx
+    have : dirCoordV v pp pBp cs c = 0 := hall' _ (by rw [directionV_eq_map]; exact List.mem_map.mpr ⟨c, hc, rfl⟩)
+    rw [this]; ring
+  linarith
+
+/-- the variant of `getBoxConstrainedDirection` found in the checked tree (regenerated by `translate/lbfgs_box.py`
+on every run) is one the theorems of this section cover: the unrepaired one (`box_direction_feasible_partial`,
+`box_direction_descent`, `box_direction_nonzero` via `directionV_head`) or one with repaired clipping loops
+(`box_direction_*_repaired`).  (Scaled Cauchy step with unrepaired loops is modelled and tied but has no theorems:
+this obligation then fails.) -/
+theorem tree_variant_covered :
+    SharkVerif.Gen.LbfgsBox.variant = ⟨false, false⟩ ∨ SharkVerif.Gen.LbfgsBox.variant.clipBySign = true := by decide
+
+end SharkVerif.C10.Box
+
